@@ -255,10 +255,13 @@ class XrayModel(object):
         return f * rho, f * irho
 
 
-# CODATA values (2018; the tree embeds 2006 values, which differ by < 2e-7)
+# CODATA values (2018; the tree embeds 2006 values, which differ by < 2e-7).
+# Only the constants that enter the x-ray equations.  (constants.electron_mass of the
+# pinned tree is 5.48577990946e-4, 3.5e-6 away from CODATA 5.4857990946e-4 - an extra
+# digit; it moves an ion's mass by 2e-9 u and is not C05's business.)
 CODATA = {'electron_radius': 2.8179403262e-15, 'avogadro_number': 6.02214076e23,
-          'plancks_constant': 4.135667696e-15, 'speed_of_light': 299792458.0,
-          'electron_mass': 5.48579909065e-4}
+          'plancks_constant': 4.135667696e-15, 'speed_of_light': 299792458.0}
+HC_KEV_ANGSTROM = 12.398419843
 
 
 def pin_constants(rel=1e-6):
